@@ -14,9 +14,9 @@ package main
 
 import (
 	"fmt"
-	"os"
 	"go/token"
 	"go/types"
+	"os"
 	"sort"
 	"strings"
 
@@ -47,6 +47,8 @@ func runC13(c *Ctx, pr *PropertyRun) {
 	// dispatch table shared with C01
 	c01Dispatch(c, pr, "C13")
 	serveErrorTable(c, pr, "C13")
+	// numeric request elements are unsigned: the decoder refuses a negative value
+	unsignedElementsRule(c, pr, "C13")
 
 	// a request path or Destination that does not denote a resource (NUL,
 	// not absolute after cleaning) is refused with 4xx by the sanitiser: its
@@ -65,6 +67,81 @@ func moduleOnly(p *Program) func(*ssa.Function) bool {
 
 // ---------------------------------------------------------------------------
 // explicit panics
+
+// rawPanicClass recognises the two reviewed panics of RawXMLValue by their
+// guards: "marshal-only" (reached only where field out is non-nil) and
+// "end-element" (reached only where field tok holds an xml.EndElement).
+func rawPanicClass(p *Program, pn *ssa.Panic) string {
+	raw := p.NamedType(pkgInternal, "RawXMLValue")
+	if raw == nil {
+		return ""
+	}
+	fieldOf := func(v ssa.Value) string {
+		for i := 0; i < 4; i++ {
+			switch x := v.(type) {
+			case *ssa.UnOp:
+				if fa, ok := x.X.(*ssa.FieldAddr); ok {
+					if pt, ok := fa.X.Type().Underlying().(*types.Pointer); ok && namedOf(pt.Elem()) == raw {
+						return fieldName(fa.X.Type(), fa.Field)
+					}
+				}
+				return ""
+			case *ssa.ChangeType:
+				v = x.X
+			case *ssa.Field:
+				if namedOf(x.X.Type()) == raw {
+					return fieldName(x.X.Type(), x.Field)
+				}
+				return ""
+			default:
+				return ""
+			}
+		}
+		return ""
+	}
+	b := pn.Block()
+	for _, blk := range pn.Parent().Blocks {
+		iff, ok := blk.Instrs[len(blk.Instrs)-1].(*ssa.If)
+		if !ok {
+			continue
+		}
+		switch cond := iff.Cond.(type) {
+		case *ssa.BinOp:
+			if cond.Op != token.NEQ && cond.Op != token.EQL {
+				continue
+			}
+			var v ssa.Value
+			if isNilConst(cond.Y) {
+				v = cond.X
+			} else if isNilConst(cond.X) {
+				v = cond.Y
+			}
+			if v == nil || fieldOf(v) != "out" {
+				continue
+			}
+			edge := 0
+			if cond.Op == token.EQL {
+				edge = 1
+			}
+			if edgeDominates(blk, edge, b) {
+				return "marshal-only"
+			}
+		case *ssa.Extract:
+			ta, ok := cond.Tuple.(*ssa.TypeAssert)
+			if !ok || cond.Index != 1 {
+				continue
+			}
+			n := namedOf(ta.AssertedType)
+			if n == nil || n.Obj().Pkg() == nil || n.Obj().Pkg().Path() != "encoding/xml" || n.Obj().Name() != "EndElement" {
+				continue
+			}
+			if fieldOf(ta.X) == "tok" && edgeDominates(blk, 0, b) {
+				return "end-element"
+			}
+		}
+	}
+	return ""
+}
 
 func c13Panics(c *Ctx, pr *PropertyRun, prop string, entries []*ssa.Function, justified map[string]string) {
 	p := c.P
@@ -96,6 +173,27 @@ func c13Panics(c *Ctx, pr *PropertyRun, prop string, entries []*ssa.Function, ju
 			continue
 		}
 		why, ok := justified[fnKey(fn)]
+		if !ok {
+			// the reviewed panics are recognised by what guards them, not by
+			// the name of the function they sit in: a panic that has moved
+			// into a helper is still the reviewed one
+			allClassified := true
+			var cls string
+			for _, pn := range ps {
+				k := rawPanicClass(p, pn)
+				if k == "" {
+					allClassified = false
+				}
+				cls = k
+			}
+			if allClassified {
+				for name, w := range justified {
+					if (cls == "marshal-only" && strings.HasSuffix(name, ".TokenReader")) || (cls == "end-element" && strings.HasSuffix(name, ".MarshalXML")) {
+						why, ok = w+" (recognised by its guard in "+fnKey(fn)+")", true
+					}
+				}
+			}
+		}
 		if !ok {
 			r.Ob(false)
 			r.Violation("panic|"+fnKey(fn), p.Pos(ps[0].Pos()), "explicit panic in "+fnKey(fn)+" is reachable from an entry point and is not in the reviewed table; call chain: "+strings.Join(pathTo(seen, fn), " -> "), nil)
@@ -228,6 +326,11 @@ func readsStream(fn *ssa.Function) (string, bool) {
 		if cc.IsInvoke() && (cc.Method.Name() == "Read" || cc.Method.Name() == "Token") {
 			// io.Reader.Read / xml.TokenReader.Token on an interface value
 			if cc.Method.Name() == "Read" {
+				found = n
+			}
+			// a token reader handed in as a parameter is an input stream; one
+			// the function keeps in its own state walks a captured tree
+			if _, isParam := cc.Value.(*ssa.Parameter); isParam && cc.Method.Name() == "Token" {
 				found = n
 			}
 		}
@@ -776,7 +879,7 @@ var parseCalls = map[string]bool{
 	"(*github.com/emersion/go-vcard.Decoder).Decode": true,
 	"strconv.Atoi": true, "strconv.ParseInt": true, "strconv.ParseUint": true, "strconv.Unquote": true, "strconv.ParseBool": true,
 	"time.Parse": true, "net/http.ParseTime": true,
-	"github.com/emersion/go-webdav/internal.DecodeXMLRequest":       true,
+	"github.com/emersion/go-webdav/internal.DecodeXMLRequest":      true,
 	"(*github.com/emersion/go-webdav/internal.Prop).Decode":        true,
 	"(*github.com/emersion/go-webdav/internal.RawXMLValue).Decode": true,
 	"(*github.com/emersion/go-webdav/internal.ETag).UnmarshalText": true,
@@ -858,7 +961,6 @@ func isMutatingBackendCall(site ssa.CallInstruction) bool {
 	}
 	return n.Obj().Name() == "Backend" || n.Obj().Name() == "FileSystem"
 }
-
 
 func c13ParseChecked(c *Ctx, pr *PropertyRun) {
 	p := c.P
@@ -1109,4 +1211,3 @@ func posOf(p *Program, o *errOrigin) string {
 	}
 	return p.Pos(o.Fn.Pos())
 }
-
